@@ -173,6 +173,7 @@ func (i *interpreter) initPackage(pkg *ssa.Package) {
 	}
 	path := pkg.Pkg.Path()
 	if initDenied(path) {
+		i.initDeniedSpecial(pkg)
 		// Sentinel errors of packages whose initialiser is not run get a unique
 		// synthetic value so that identity comparisons (errors.Is) keep working.
 		if es := i.prog.ImportedPackage("errors"); es != nil {
@@ -591,6 +592,8 @@ func prepareCall(fr *frame, call *ssa.CallCommon) (fn value, args []value) {
 		}
 		if recv.t == rtypeType {
 			fn = rtypeMethod(call.Method.Name())
+		} else if nm, ok := nativeTypes[recv.t]; ok {
+			fn = nm(call.Method.Name())
 		} else if recv.t == stubType {
 			sig := call.Method.Type().(*types.Signature)
 			fn = &nativeFunc{name: "stub." + call.Method.Name(), f: func(fr *frame, args []value) value { return zeroStubResults(sig) }}
